@@ -337,6 +337,10 @@ func (n *lazyNode) isNull() bool {
 		return true
 	}
 
+	if n.which != eRaw {
+		return false
+	}
+
 	if n.raw == nil {
 		return true
 	}
@@ -345,6 +349,12 @@ func (n *lazyNode) isNull() bool {
 }
 
 func (n *lazyNode) equal(o *lazyNode) bool {
+	// A JSON null is either a nil node (decoded from a document) or a raw
+	// "null" (supplied by a patch); null is equal to null only.
+	if n.isNull() || o.isNull() {
+		return n.isNull() && o.isNull()
+	}
+
 	if n.which == eRaw {
 		if !n.tryDoc() && !n.tryAry() {
 			if o.which != eRaw {
@@ -395,14 +405,6 @@ func (n *lazyNode) equal(o *lazyNode) bool {
 
 			if !ok {
 				return false
-			}
-
-			if (v == nil) != (ov == nil) {
-				return false
-			}
-
-			if v == nil && ov == nil {
-				continue
 			}
 
 			if !v.equal(ov) {
@@ -1107,7 +1109,7 @@ func (p Patch) test(doc *container, op Operation, options *ApplyOptions) error {
 
 	ov := op.value()
 
-	if val == nil {
+	if val.isNull() {
 		if ov.isNull() {
 			return nil
 		}
